@@ -104,6 +104,8 @@ def errName : ErrClass → String
   | .badValue => "bad-value"
   | .missingResults => "missing-results"
   | .noSuchField => "no-such-field"
+  | .repeatedKey => "repeated-key"
+  | .repeatedField => "repeated-field"
 
 def renderResp {κ : Type} (showKey : Key κ → String) : Except ErrClass (BatchResponse κ Nat) → String
   | .error e => "err:" ++ errName e
